@@ -29,6 +29,8 @@ def cfg(kind="basic"):
 
 A = "A"
 SEL = {"s": A, "op": "select", "m": "INBOX"}
+# the client learns every (UIDVALIDITY, UID) -> message binding of the mailbox
+REVEAL = {"s": A, "op": "fetch", "set": "1:*", "items": "(UID BODY.PEEK[HEADER.FIELDS (SUBJECT)])", "uid": True}
 HISTORIES = {
     "first-startup": ("empty", [{"s": A, "op": "append", "m": "INBOX"}]),
     "append2": ("basic", [{"s": A, "op": "append", "m": "INBOX", "flags": "\\Seen kw"}, {"s": A, "op": "append", "m": "a"}]),
@@ -36,6 +38,12 @@ HISTORIES = {
                         {"s": A, "op": "store", "set": "1:*", "mode": "=", "flags": "\\Seen"}]),
     "expunge-middle": ("basic", [SEL, {"s": A, "op": "store", "set": "2", "mode": "+", "flags": "\\Deleted"}, {"s": A, "op": "expunge"}]),
     "expunge-last-append": ("basic", [SEL, {"s": A, "op": "del", "set": "*"}, {"s": A, "op": "append", "m": "INBOX"}]),
+    # a mailbox emptied completely (the recovery of a folder that "shrank" to nothing), then used again
+    "expunge-all-append": ("basic", [SEL, REVEAL, {"s": A, "op": "store", "set": "1:*", "mode": "+", "flags": "\\Deleted"}, {"s": A, "op": "expunge"},
+                                     {"s": A, "op": "append", "m": "INBOX"}]),
+    "move-all": ("basic", [SEL, REVEAL, {"s": A, "op": "move", "set": "1:*", "dst": "a"}, {"s": A, "op": "append", "m": "INBOX"}]),
+    "close-all": ("basic", [SEL, REVEAL, {"s": A, "op": "store", "set": "1:*", "mode": "+", "flags": "\\Deleted"}, {"s": A, "op": "close"},
+                            {"s": A, "op": "select", "m": "INBOX"}]),
     "copy": ("basic", [SEL, {"s": A, "op": "copy", "set": "1:2", "dst": "a"}]),
     "move": ("basic", [SEL, {"s": A, "op": "move", "set": "1:2", "dst": "a"}]),
     "copy-self": ("basic", [SEL, {"s": A, "op": "copy", "set": "1:*", "dst": "INBOX"}]),
@@ -69,7 +77,7 @@ def units(tier):
 
         for n in (2, 3):
             for combo in itertools.product(ALPHA[1:], repeat=n):
-                us.append((["vf.props.c11", "cfg", ["basic"]], [SEL] + list(combo)))
+                us.append((["vf.props.c11", "cfg", ["basic"]], [SEL, REVEAL] + list(combo)))
     return us
 
 
